@@ -1,4 +1,5 @@
 import BitcaskVerif.Props.C16
+import BitcaskVerif.Props.C06Bytes
 #print axioms Shutdown.c16_no_tear
 #print axioms Shutdown.c16_acked
 #print axioms Shutdown.c16_acked_in_flight
@@ -6,3 +7,6 @@ import BitcaskVerif.Props.C16
 #print axioms Shutdown.c16_terminates
 #print axioms Shutdown.writing_bound
 #print axioms Shutdown.c16_done_iff
+-- byte-level statements (Props/C06Bytes.lean)
+#print axioms Resp.c16_bytes_whole_replies
+#print axioms Resp.c16_bytes_whole_replies_plain
